@@ -13,6 +13,20 @@ CLAIMED = {
    note=TB + "regexp/bufio/strconv/bytes.TrimSpace are re-implemented in the model and tied by correspondence only.",
    technique="Lean 4 proof (structural induction over the codec model) + regenerated-constant obligations + differential correspondence vs lfs.DecodePointer",
    ref="§5 C07, Appendix E"),
+ "C08": dict(
+   text="Lean theorems for EVERY chunking of EVERY byte string over the executable clean/smudge model with the real decoder model plugged in (chunk independence, pointer pass-through, "
+        "content in full, >=1024 bytes is content, never a pointer to a pointer, smudge pass-through of non-pointers); model tied to the real clean()/smudge() command path by a differential "
+        "campaign through `git-lfs verif-filter` (deterministic short reads), Go-side dichotomy oracle computed from the bytes alone supplies replays.",
+   note=TB + "Pipe/pkt-line delivery is modelled by Stream (chunks + EOF style); extension programs are outside the model (D20).",
+   technique="Lean 4 proof (refinement of the stream-level filter to a byte-level spec via readFull_spec) + differential correspondence through the real command path",
+   ref="§5 C08, Appendices A/H"),
+ "C01": dict(
+   text="Lean theorems: clean keeps the store intact, the emitted pointer names hash and length of what is stored, clean-then-smudge returns the original bytes for every chunking on both sides "
+        "(under explicit hypotheses on SHA-256), empty round trip, existing objects never overwritten, merge-driver output exact; tied to the real filters by the same differential campaign "
+        "incl. file-at-path states and round trips, plus the merge driver run for real.",
+   note=TB + "SHA-256 is abstract in the theorems (hypotheses stated); extension programs assumed inverse and not modelled; clonefile path not reachable here.",
+   technique="Lean 4 proof (invariant Intact + round-trip via C07.dec_enc) + differential correspondence through the real command path",
+   ref="§5 C01, Appendix H"),
 }
 PENDING_REASON = "check not built yet in this session (build in progress, see DESIGN.md §10); not claimed until its theorems and correspondence run"
 ALL = ["C%02d" % i for i in range(1, 21)]
